@@ -1,0 +1,151 @@
+//go:build verif
+
+package cache
+
+import (
+	"os"
+	"sort"
+	"time"
+)
+
+// Verification hooks (build tag "verif" only) for the correspondence harness in
+// /verif: synchronous janitor cycles, ageing of entries instead of sleeping,
+// and a snapshot of the accounting state. Nothing here is compiled without the tag.
+
+// VerifYield, when set, is called at the named yield points ("janitor.afterScan")
+// so that the harness can place an operation inside that window deterministically.
+var VerifYield func(point string)
+
+func verifYield(point string) {
+	if VerifYield != nil {
+		VerifYield(point)
+	}
+}
+
+// VerifSnap is the accounting state of a cache at a quiescent moment.
+type VerifSnap struct {
+	ByteSize int64            // the cache's own size counter
+	Entries  map[string]int64 // key hex -> Metadata.Size of every entry in the map
+	Files    map[string]int64 // file backend: name -> length of every file in the cache directory
+}
+
+// VerifHooks is implemented by *MemoryCache and *FileCache.
+type VerifHooks interface {
+	VerifRunCleanupCycle()
+	VerifCleanExpired()
+	VerifEvict(limit int64)
+	VerifShiftClock(d time.Duration)
+	VerifSnapshot() VerifSnap
+	VerifShardOf(key CacheKey) int
+}
+
+func shiftMeta[M any](m *EntryMetadata[M], d time.Duration) {
+	m.TimeWritten = m.TimeWritten.Add(-d)
+	m.LastAccess = m.LastAccess.Add(-d)
+	m.Expires = m.Expires.Add(-d)
+}
+
+func lockAll(locks []lockable) func() {
+	for _, l := range locks {
+		l.Lock()
+	}
+	return func() {
+		for _, l := range locks {
+			l.Unlock()
+		}
+	}
+}
+
+type lockable interface {
+	Lock()
+	Unlock()
+}
+
+// ---- memory backend
+
+func (c *MemoryCache[M]) VerifRunCleanupCycle() {
+	c.janitor.cleanExpiredEntries()
+	c.janitor.ensureCacheSize()
+}
+func (c *MemoryCache[M]) VerifCleanExpired()     { c.janitor.cleanExpiredEntries() }
+func (c *MemoryCache[M]) VerifEvict(limit int64) { c.janitor.evict(limit) }
+func (c *MemoryCache[M]) VerifShardOf(key CacheKey) int {
+	l := getLock(c.locks, key)
+	for i := range c.locks {
+		if &c.locks[i] == l {
+			return i
+		}
+	}
+	return -1
+}
+func (c *MemoryCache[M]) VerifShiftClock(d time.Duration) {
+	ls := make([]lockable, len(c.locks))
+	for i := range c.locks {
+		ls[i] = &c.locks[i]
+	}
+	defer lockAll(ls)()
+	c.mu.Lock()
+	defer c.mu.Unlock()
+	for _, e := range c.entries {
+		shiftMeta(e.meta, d)
+	}
+}
+func (c *MemoryCache[M]) VerifSnapshot() VerifSnap {
+	c.mu.RLock()
+	defer c.mu.RUnlock()
+	s := VerifSnap{ByteSize: c.byteSize.Get(), Entries: map[string]int64{}}
+	for k, e := range c.entries {
+		s.Entries[k.Hex] = e.meta.Size
+	}
+	return s
+}
+
+// ---- file backend
+
+func (c *FileCache[M]) VerifRunCleanupCycle() {
+	c.janitor.cleanExpiredEntries()
+	c.janitor.ensureCacheSize()
+}
+func (c *FileCache[M]) VerifCleanExpired()     { c.janitor.cleanExpiredEntries() }
+func (c *FileCache[M]) VerifEvict(limit int64) { c.janitor.evict(limit) }
+func (c *FileCache[M]) VerifShardOf(key CacheKey) int {
+	l := getLock(c.locks, key)
+	for i := range c.locks {
+		if &c.locks[i] == l {
+			return i
+		}
+	}
+	return -1
+}
+func (c *FileCache[M]) VerifShiftClock(d time.Duration) {
+	ls := make([]lockable, len(c.locks))
+	for i := range c.locks {
+		ls[i] = &c.locks[i]
+	}
+	defer lockAll(ls)()
+	c.mu.Lock()
+	defer c.mu.Unlock()
+	for _, m := range c.entriesMetadata {
+		shiftMeta(m, d)
+	}
+}
+func (c *FileCache[M]) VerifSnapshot() VerifSnap {
+	c.mu.RLock()
+	defer c.mu.RUnlock()
+	s := VerifSnap{ByteSize: c.byteSize.Get(), Entries: map[string]int64{}, Files: map[string]int64{}}
+	for k, m := range c.entriesMetadata {
+		s.Entries[k.Hex] = m.Size
+	}
+	des, _ := os.ReadDir(c.rootDir.Path)
+	names := []string{}
+	for _, de := range des {
+		names = append(names, de.Name())
+	}
+	sort.Strings(names)
+	for _, n := range names {
+		if st, err := os.Stat(c.rootDir.Path + "/" + n); err == nil {
+			s.Files[n] = st.Size()
+		}
+	}
+	return s
+}
